@@ -150,10 +150,11 @@ func RunE3(env *Env, job *E3Job) *E3Res {
 		pk := phaseKind(info.Hang.Phase)
 		switch pk {
 		case "call", "probe":
-			viol(fmt.Sprintf("C10|hang-in-%s|call=%s|%s|seam=%s|%s", pk, shape, hshape, seam, info.Hang.Key()),
+			_ = hshape
+			viol(fmt.Sprintf("C10|hang|%s", info.Hang.Key()),
 				fmt.Sprintf("%s\ndeadlock in phase %q; waiters: %+v", hist, info.Hang.Phase, info.Hang.Waiters))
 		case "cleanup":
-			viol(fmt.Sprintf("C10|hang-in-close|after=%s|%s|seam=%s|%s", shape, hshape, seam, info.Hang.Key()),
+			viol(fmt.Sprintf("C10|hang-in-close|%s", info.Hang.Key()),
 				fmt.Sprintf("%s\ndeadlock while closing the handles that were still open; waiters: %+v", hist, info.Hang.Waiters))
 		default:
 			// a hang in the prefix belongs to the job in which that call is the last one
